@@ -205,6 +205,35 @@ def is_joint_guard(prog, R, rule="C01.6-is_joint-guarded"):
     R.floor("is_joint call sites", n, 3)
 
 
+def lookahead_relative(prog, R, rule):
+    """Position independence of the parser's lookahead: every index handed to Input::kind / Input::is_joint by a
+    Parser method is `self.pos + k` (never an absolute index or one that ignores pos).  A statement then parses
+    the same wherever it stands in the token stream."""
+    from sym import SymExec, show, deep_strip, term_contains
+    a = prog.adts.get(PP + "Parser")
+    pos_idx = [i for i, f in enumerate(a["variants"][0]["fields"]) if f["name"] == "pos"][0] if a else None
+    n, bad = 0, []
+    for b in prog.by_crate["oq3_parser"]:
+        if not b.npath.startswith(PP + "Parser::"):
+            continue
+        sites = [bi for bi, t in b.calls() if (b.callee_of(t) or "").endswith(("Input::kind", "Input::is_joint"))]
+        if not sites:
+            continue
+        seen = {}
+        for p in SymExec(prog, b, max_paths=3000).paths():
+            for nm, args, bb in p.calls:
+                if nm.endswith(("Input::kind", "Input::is_joint")) and len(args) > 1:
+                    seen.setdefault(bb, set()).add(deep_strip(args[1]))
+        for bb in sites:
+            for t_ in seen.get(bb, {None}):
+                n += 1
+                rel = t_ is not None and term_contains(t_, lambda x: isinstance(x, tuple) and x[0] == "field" and x[2] == pos_idx and isinstance(x[1], tuple) and x[1][0] == "arg" and x[1][2] == "self")
+                if not rel:
+                    bad.append((short(b.npath), b.blocks[bb].term["at"], show(t_)[:60] if t_ is not None else "unreached"))
+    R.ob(rule, "every lookahead index is relative to Parser.pos", not bad and n >= 5 and pos_idx is not None, bad[0][1] if bad else "",
+         f"{n} lookahead index terms in Parser methods, all of the form pos + k" if not bad else f"lookahead at an index that does not depend on the current position: {bad[:3]}: the same tokens parse differently depending on where they stand in the input")
+
+
 def composite_jointness(prog, R, rule):
     """A composite token of K raw tokens is recognised iff the K kinds match and the first K-1 raw tokens are each
     joint to their successor: on the accepting path of at_compositeK, kind() is asked at offsets 0..K-1 and
@@ -297,6 +326,7 @@ def structural_part(prog, R):
         R.ob("ANCHOR", "TokenSet::contains", False)
     is_joint_guard(prog, R)
     composite_jointness(prog, R, "C01.6-composite-jointness")
+    lookahead_relative(prog, R, "C01.6-lookahead-relative")
 
 
 def run(prog, R):
